@@ -1,0 +1,122 @@
+//go:build verif
+// +build verif
+
+package wal
+
+// Contracts for the deductive verifier in /verif (govc).  Comment-only file,
+// compiled only under the build tag `verif`.
+
+//@ property C05
+
+// ---- frame header: low 56 bits = record length, top byte = 0x80|pad when padded (bit-precise, bv mode) ----
+
+//@ func encodeFrameSize(dataBytes int) (lenField uint64, padBytes int)
+//@   mode bv
+//@   requires 0 <= dataBytes && dataBytes < 72057594037927936
+//@   ensures 0 <= padBytes && padBytes < 8 && (dataBytes + padBytes) % 8 == 0
+//@   ensures lenField & 72057594037927935 == uint64(dataBytes)
+//@   ensures padBytes != 0 ==> lenField >> 56 == uint64(128 | padBytes)
+//@   ensures padBytes == 0 ==> lenField >> 56 == 0
+
+//@ func decodeFrameSize(lenField int64) (recBytes int64, padBytes int64)
+//@   mode bv
+//@   ensures recBytes == int64(uint64(lenField) & 72057594037927935)
+//@   ensures lenField < 0 ==> padBytes == int64((uint64(lenField) >> 56) & 7)
+//@   ensures lenField >= 0 ==> padBytes == 0
+//@   ensures 0 <= recBytes && recBytes < 72057594037927936 && 0 <= padBytes && padBytes < 8
+
+//@ lemma lemmaFrameRoundTrip(n int) (recBytes int64, padBytes int64, lenField uint64, pad int)
+//@   mode bv
+//@   requires 0 <= n && n < 72057594037927936
+//@   ensures recBytes == int64(n) && padBytes == int64(pad) && 0 <= pad && pad < 8 && (n + pad) % 8 == 0
+//@   ensures lenField != 0 <==> n != 0
+//@   ensures int64(lenField) < 0 <==> pad != 0
+
+// ---- record decoding ----
+// ghost(consumed, r) = bytes consumed so far from reader r (see trusted io.ReadFull contract)
+
+//@ func readInt64(r io.Reader) (int64, error)
+//@   trusted binary.Read of 8 little-endian bytes (reflection inside encoding/binary)
+//@   ensures result1 == nil ==> ghost(consumed, r) == old(ghost(consumed, r)) + 8
+//@   ensures ghost(consumed, r) < 4611686018427387904
+//@   modifies ghost(consumed, r)
+
+//@ extern (*github.com/youzan/ZanRedisDB/wal/walpb.Record).Unmarshal func(m *Record, dAtA []byte) error
+//@   modifies m.Type, m.Crc, m.Data
+
+//@ spec brsOK(d *decoder) bool = (forall p int, q int :: d.brs.off <= p && p < q && q < d.brs.off + len(d.brs) ==> at(d.brs, p) != at(d.brs, q)) && (forall p int :: d.brs.off + 1 <= p && p < d.brs.off + len(d.brs) ==> ghost(consumed, box(at(d.brs, p))) == 0) && (len(d.brs) >= 1 ==> d.lastValidOff == ghost(consumed, box(d.brs[0])))
+
+// lastValidOff always equals the number of bytes consumed from the *current* segment
+// when a record was accepted: Repair/ReadAll cut or zero exactly after the last valid record.
+//@ func (d *decoder) decodeRecord(rec *walpb.Record) error
+//@   requires d != nil && rec != nil && 0 <= d.lastValidOff && d.lastValidOff < 4611686018427387904
+//@   requires brsOK(d)
+//@   ensures result == nil ==> len(d.brs) >= 1 && brsOK(d) && 0 <= d.lastValidOff && d.lastValidOff < 4611686018427387904
+//@   ensures result == nil ==> len(d.brs) <= old(len(d.brs))
+//@   ensures d.crc == old(d.crc)
+//@   modifies d.brs, d.lastValidOff, rec.Type, rec.Crc, rec.Data, ghost(crcsum, d.crc), ghost(consumed, _)
+
+//@ func (d *decoder) decode(rec *walpb.Record) error
+//@   requires d != nil && rec != nil && 0 <= d.lastValidOff && d.lastValidOff < 4611686018427387904
+//@   requires brsOK(d)
+//@   ensures result == nil ==> len(d.brs) >= 1 && brsOK(d) && 0 <= d.lastValidOff && d.lastValidOff < 4611686018427387904
+//@   ensures d.crc == old(d.crc)
+//@   modifies d.brs, d.lastValidOff, rec.Type, rec.Crc, rec.Data, ghost(crcsum, d.crc), ghost(consumed, _)
+
+//@ func (d *decoder) isTornEntry(data []byte) bool
+//@   requires d != nil && 0 <= d.lastValidOff && d.lastValidOff < 4611686018427387904
+//@   ensures len(d.brs) != 1 ==> result == false
+//@ loop 1
+//@   invariant 0 <= curOff && curOff <= len(data) && fileOff == d.lastValidOff + 8 + curOff
+//@   invariant fresh(chunks) && fileOff >= 0
+//@   decreases len(data) - curOff
+//@ loop 2
+//@   invariant iter >= 0
+//@ loop 3
+//@   invariant iter >= 0
+
+// ---- ReadAll: what reopening a log returns ----
+
+//@ func mustUnmarshalEntry(d []byte) raftpb.Entry
+//@   trusted protobuf decoding of one entry (arbitrary entry value); panics on error
+//@ func mustUnmarshalState(d []byte) raftpb.HardState
+//@   trusted protobuf decoding of one hard state (arbitrary value); panics on error
+
+//@ func (d *decoder) lastOffset() int64
+//@   inline
+//@ func (d *decoder) lastCRC() uint32
+//@   trusted reads the running CRC
+//@ func (w *WAL) tail() *fileutil.LockedFile
+//@   requires w != nil
+//@   ensures len(w.locks) > 0 ==> result == w.locks[len(w.locks)-1]
+//@   ensures len(w.locks) == 0 ==> result == nil
+//@ func newFileEncoder(f *os.File, prevCrc uint32) (*encoder, error)
+//@   trusted file-system call (Seek); returns a new encoder
+
+// The CRC chain may only be advanced to the value the running CRC already has
+// (or started on a fresh decoder whose running CRC is 0): a crc record that does not
+// match what was read so far must not be accepted.
+//@ func (d *decoder) updateCRC(prevCrc uint32)
+//@   requires d != nil
+//@   requires ghost(crcsum, d.crc) == 0 || int(prevCrc) == ghost(crcsum, d.crc)
+//@   ensures ghost(crcsum, d.crc) == int(prevCrc)
+//@   modifies d.crc, ghost(crcsum, d.crc)
+//@   trusted crc.New allocates a digest seeded with prevCrc
+
+//@ spec lastValidOK(w *WAL) bool = w.decoder != nil ==> (0 <= w.decoder.lastValidOff && w.decoder.lastValidOff < 4611686018427387904 && brsOK(w.decoder))
+
+// Entries come back placed by index (position k holds index start+1+k), and the slice ends
+// with the last entry record read: a later record with an index already present truncates
+// everything from that index on ("later entries with the same index replace earlier ones").
+//@ func (w *WAL) ReadAll() (metadata []byte, state raftpb.HardState, ents []raftpb.Entry, err error)
+//@   requires w != nil && lastValidOK(w)
+//@   requires w.start.Index < 4611686018427387904
+//@   ensures err == nil ==> (forall k int :: 0 <= k && k < len(ents) ==> ents[k].Index == old(w.start.Index) + 1 + k)
+//@   ensures err == nil && len(ents) > 0 ==> ents[len(ents)-1].Index == w.enti || w.enti <= old(w.start.Index)
+//@   modifies *
+//@ loop 1
+//@   invariant w.decoder == old(w.decoder) && decoder == w.decoder && decoder != nil && rec != nil && w.start.Index == old(w.start.Index)
+//@   invariant err == nil ==> 0 <= decoder.lastValidOff && decoder.lastValidOff < 4611686018427387904 && brsOK(decoder)
+//@   invariant len(ents) >= 0 && (ents == nil || fresh(ents))
+//@   invariant forall k int :: 0 <= k && k < len(ents) ==> ents[k].Index == w.start.Index + 1 + k
+//@   invariant len(ents) > 0 ==> ents[len(ents)-1].Index == w.enti || w.enti <= w.start.Index
